@@ -212,6 +212,31 @@ def gen_case(rng, tier, direction=None, feats=None):
             case['prior'] = 'ok'
     # keep only the links the graph API accepts (the case stays replayable: rejected links are dropped)
     case['links'] = build(case)[3]
+    if (case['links'][:-1] if case.get('lateLink') else case['links']) and rng.random() < 0.3:
+        # edits the graph API must refuse (a cycle: a transitive successor added as predecessor, or the mirror image), made after the
+        # plan is complete and caught by the caller: the plan that is scheduled is the one described by `links`
+        made = case['links'][:-1] if case.get('lateLink') else case['links']      # (a held last link is made after these edits)
+        succ = {}
+        for a, b in made:
+            succ.setdefault(a, set()).add(b)
+
+        def reach(x):
+            seen, todo = set(), [x]
+            while todo:
+                for y in succ.get(todo.pop(), ()):
+                    if y not in seen:
+                        seen.add(y); todo.append(y)
+            return seen
+        rej = []
+        for _ in range(rng.randrange(1, 4)):
+            a, b = rng.choice(made)
+            far = sorted(reach(a))
+            s2 = rng.choice(far) if rng.random() < 0.5 else b
+            rej.append([rng.choice(['pred', 'pred+', 'succ', 'succ+']), a, s2])
+        case['rejected'] = rej
+        build(case, hold_last_link=bool(case.get('lateLink')))
+        if not build.refused:
+            del case['rejected']
     return case
 
 
@@ -268,6 +293,21 @@ def build(case, hold_last_link=False):
             pass
     if build.pending is not None:
         accepted.append(build.pending)
+    build.refused = True
+    for how, a, b in case.get('rejected', []):
+        # a is a (transitive) predecessor of b: making b a predecessor of a, or a a successor of b, closes a cycle and must be refused
+        try:
+            if how == 'pred':
+                objs[a].predecessors = list(objs[a].predecessors) + [objs[b]]
+            elif how == 'pred+':
+                objs[a].predecessors.append(objs[b])
+            elif how == 'succ':
+                objs[b].successors = list(objs[b].successors) + [objs[a]]
+            else:
+                objs[b].successors.append(objs[a])
+            build.refused = False
+        except RuntimeError:
+            pass
     return w, objs, others, accepted
 
 
@@ -403,10 +443,22 @@ def record(case, w, objs, others):
     n = len(objs)
     uid = {id(o): u for u, o in enumerate(allobjs)}
     rows = []
+    # the plan's dependencies are the links declared on either end: a link listed on one side only (a state C01 excludes) still is a
+    # declared dependency of the plan, so the record lists it on both sides (appended; no change on a symmetric state)
+    preds = {id(o): [uid[id(p)] for p in o.predecessors if id(p) in uid] for o in allobjs}
+    succs = {id(o): [uid[id(p)] for p in o.successors if id(p) in uid] for o in allobjs}   # (an outside task keeps the copies of an earlier calc as link partners: not part of this input)
+    for o in allobjs:
+        u = uid[id(o)]
+        for pu in list(preds[id(o)]):
+            if u not in succs[id(allobjs[pu])]:
+                succs[id(allobjs[pu])].append(u)
+        for su in list(succs[id(o)]):
+            if u not in preds[id(allobjs[su])]:
+                preds[id(allobjs[su])].append(u)
     for o in allobjs:
         raw_parent = getattr(o, '_Task__parent', None)
         rows.append([o.id, None if raw_parent is None else uid[id(raw_parent)], [uid[id(c)] for c in o.children],
-                     [uid[id(p)] for p in o.predecessors if id(p) in uid], [uid[id(p)] for p in o.successors if id(p) in uid],   # (an outside task keeps the copies of an earlier calc as link partners: not part of this input)
+                     preds[id(o)], succs[id(o)],
                      None if o.wbs is None else n + wbss.index(o.wbs)])
     # the model's milestone flag is the *effective* one: flagged and childless (the schedulers treat a flagged task that has
     # children as a summary)
@@ -530,7 +582,7 @@ def removal_check(case, obs):
         if t['parent'] is not None:
             t['parent'] = remap[t['parent']]
         nt.append(t)
-    c2 = dict(case, tasks=nt, links=[[remap[a], remap[b]] for a, b in case['links']])
+    c2 = dict(case, tasks=nt, links=[[remap[a], remap[b]] for a, b in case['links']], rejected=[[h, remap[a], remap[b]] for h, a, b in case.get('rejected', [])])
     w2, objs2, _, acc = build(c2)
     if len(acc) != len(c2['links']):
         return True
@@ -689,8 +741,11 @@ def judge(prop, case, rec, out):
 def case_variants(case):
     tasks = case['tasks']
     n = len(tasks)
+    if case.get('rejected'):
+        for i in range(len(case['rejected'])):
+            yield dict(case, rejected=case['rejected'][:i] + case['rejected'][i + 1:])
     if case['links']:
-        yield dict(case, links=[])
+        yield dict(case, links=[], rejected=[])
         for i in range(len(case['links'])):
             yield dict(case, links=case['links'][:i] + case['links'][i + 1:])
     # drop the last task when nothing refers to it
@@ -702,7 +757,8 @@ def case_variants(case):
             if t['parent'] is not None and t['parent'] > k:
                 t['parent'] -= 1
         nl = [[a - (a > k), b - (b > k)] for a, b in case['links'] if a != k and b != k]
-        yield dict(case, tasks=nt, links=nl)
+        nr = [[h, a - (a > k), b - (b > k)] for h, a, b in case.get('rejected', []) if a != k and b != k]
+        yield dict(case, tasks=nt, links=nl, rejected=nr)
     for i in range(len(case['resources'])):
         yield dict(case, resources=case['resources'][:i] + case['resources'][i + 1:])
     for i, t in enumerate(tasks):
@@ -722,7 +778,10 @@ def case_variants(case):
 def shrink(prop, case, still_fails):
     def ok(c):
         # a variant is admissible only when all its links are still accepted by the graph API
-        return len(build(c)[3]) == len(c['links']) and still_fails(c)
+        if len(build(c)[3]) != len(c['links']):
+            return False
+        build(c, hold_last_link=bool(c.get('lateLink')))
+        return build.refused and still_fails(c)
     return common.shrink_with(case, case_variants, ok, max_tests=300)
 
 
